@@ -197,6 +197,7 @@ Proof.
   unfold lower_call, lower_call_with. destruct a; intros H; try (inversion H; left; reflexivity).
   destruct a; try (inversion H; left; reflexivity).
   destruct (class_fields c); [|inversion H; left; reflexivity].
+  destruct (existsb is_starred args); [discriminate|].
   destruct (convert _ _ _); [|discriminate]. inversion H; right; eauto.
 Qed.
 
@@ -365,7 +366,8 @@ Qed.
 Lemma lower_call_err a k : lower_call a = Err k -> exists r, k = ValueErr r.
 Proof.
   unfold lower_call, lower_call_with. destruct a; try discriminate. destruct a; try discriminate.
-  destruct (class_fields c); [|discriminate]. destruct (convert _ _ _); [discriminate|].
+  destruct (class_fields c); [|discriminate].
+  destruct (existsb is_starred args); [intros H; inversion H; eauto|]. destruct (convert _ _ _); [discriminate|].
   intros H; inversion H; eauto.
 Qed.
 
@@ -375,6 +377,7 @@ Proof.
   destruct a; try (inversion H; subst; assumption).
   destruct a; try (inversion H; subst; assumption).
   destruct (class_fields c); [|inversion H; subst; assumption].
+  destruct (existsb is_starred args); [discriminate|].
   destruct (convert l args (combine kwn kwv)) eqn:Hc; [|discriminate]. inversion H; subst; clear H.
   simpl in Ha. apply andb_true_iff in Ha. destruct Ha as [Hargs Hkw].
   apply forallb_Forall in Hargs. apply forallb_Forall in Hkw.
@@ -518,6 +521,7 @@ Lemma sugar_class_call c fields args kwn kwv args' kwv' :
   class_fields c = Some fields ->
   rmap sugar args = Ok args' -> rmap sugar kwv = Ok kwv' ->
   sugar (Call (Const c) args kwn kwv) =
+  if existsb is_starred args' then Err (ValueErr DynamicArg) else
   match convert fields args' (combine kwn kwv') with
   | BOk assoc => Ok (dict_of_assoc assoc)
   | BErr r => Err (ValueErr r)
